@@ -763,6 +763,530 @@ type S str
 x: S = 5
 OBS x
 """),
+    # ---- unpacking: every name receives ONE element, also when the pattern has a single name
+    #      (a line starting with `[` continues the previous expression, hence the separating `if true {}`)
+    ("unpack-single-name", "accept", """
+l: [int...] = [5, 6]
+if true {}
+[a] = l
+OBS a
+OBS a + 1
+const p = ["s", 1, 2.5]
+if true {}
+[q] = p
+OBS q
+OBS q + "x"
+f = fn(xs: [int...]) -> int {
+	[h] = xs
+	return h + 1
+}
+OBS f([7, 8])
+"""),
+    ("unpack-prefix-of-the-elements", "accept", """
+const p = ["s", 1, 2.5]
+if true {}
+[x, y] = p
+OBS x
+OBS y
+OBS y + 1
+l: [bool...] = [true, false, true]
+if true {}
+[b0, b1] = l
+OBS b0
+OBS b1 && b0
+"""),
+    ("unpack-single-name-existing-variable", "reject", """
+l: [int...] = [5, 6]
+a = 1
+if true {}
+[a] = l
+OBS a
+OBS a + 1
+"""),
+    # ---- class declarations: once per module (the declaration registers the class under its name)
+    ("class-declared-in-function", "reject", """
+f = fn(n: int) -> int {
+	class B {
+		v: int
+		constructor(self, v: int) {
+			self.v = v
+		}
+	}
+	b = B(n)
+	return b.v + 1
+}
+OBS f(1)
+OBS f(2)
+"""),
+    ("class-declared-in-loop", "reject", """
+from 0 to 2, i {
+	class B {
+		v: int
+		constructor(self, v: int) {
+			self.v = v
+		}
+	}
+	b = B(i)
+	OBS b.v
+}
+"""),
+    ("class-declared-in-while-with-methods", "reject", """
+k = 0
+while k < 2 {
+	class W {
+		fn val(self) -> int {
+			return 1
+		}
+	}
+	w = W()
+	OBS w.val()
+	k += 1
+}
+"""),
+    ("class-in-function-named-like-a-module-class", "reject", """
+class A {
+	v: str
+	constructor(self, v: str) {
+		self.v = v
+	}
+}
+h: A? = nil
+f = fn() {
+	class A {
+		v: int
+		constructor(self, v: int) {
+			self.v = v
+		}
+	}
+	modify h = A(5)
+}
+f()
+OBS (get h).v
+"""),
+    ("two-functions-each-with-a-class-of-one-name", "reject", """
+f = fn() -> int {
+	class Helper {
+		fn val(self) -> int {
+			return 1
+		}
+	}
+	return (Helper()).val()
+}
+g = fn() -> str {
+	class Helper {
+		fn val(self) -> str {
+			return "two"
+		}
+	}
+	return (Helper()).val()
+}
+OBS f()
+OBS g()
+"""),
+    # ---- `Self` in a member's signature is the class the member belongs to, wherever it is looked up
+    ("self-nested-in-signature", "accept", """
+class A {
+	v: int
+	constructor(self, v: int) {
+		self.v = v
+	}
+	fn all(self) -> [Self...] {
+		r: [Self...] = [self]
+		return r
+	}
+	fn maybe(self) -> Self? {
+		return self
+	}
+	fn table(self) -> map[str, Self] {
+		return map[str, Self] { "me": self }
+	}
+	fn pick(self, others: [Self...]) -> Self {
+		return others[0]
+	}
+	fn me(self) -> Self {
+		return self
+	}
+}
+class B {
+	v: str
+	w: str
+	constructor(self) {
+		self.v = "bee"
+		self.w = "w"
+	}
+	fn first(self, a: A) -> int {
+		l = a.all()
+		x = l[0]
+		OBS x
+		OBS x.v
+		m = a.maybe()
+		OBS (get m).v
+		t = a.table()
+		OBS (t["me"]).v
+		OBS (a.pick(l)).v
+		y = a.me().me()
+		OBS y.v
+		OBS self.v
+		return 1
+	}
+}
+a = A(1)
+OBS ((a.all())[0]).v
+OBS (B()).first(a)
+"""),
+    ("self-in-list-return-field-kind", "accept", """
+class A {
+	v: int
+	constructor(self, v: int) {
+		self.v = v
+	}
+	fn all(self) -> [Self...] {
+		r: [Self...] = [self]
+		return r
+	}
+}
+class B {
+	v: str
+	constructor(self) {
+		self.v = "bee"
+	}
+	fn first(self, a: A) -> int {
+		l = a.all()
+		x = l[0]
+		OBS x.v
+		return 1
+	}
+}
+OBS (B()).first(A(1))
+"""),
+    ("self-in-list-return-seen-from-another-class", "reject", """
+class A {
+	v: int
+	constructor(self, v: int) {
+		self.v = v
+	}
+	fn all(self) -> [Self...] {
+		r: [Self...] = [self]
+		return r
+	}
+}
+class B {
+	v: str
+	w: str
+	constructor(self, w: str) {
+		self.v = w
+		self.w = w
+	}
+	fn steal(self, a: A) -> str {
+		l = a.all()
+		x = l[0]
+		return x.w
+	}
+}
+OBS (B("bee")).steal(A(1))
+"""),
+    ("self-optional-return-of-a-class-declared-later", "accept", """
+holder: C? = nil
+class D {
+	w: str
+	constructor(self) {
+		self.w = "dee"
+	}
+	fn peek(self) -> int {
+		c = get holder
+		m = c.maybe()
+		OBS m
+		g = get m
+		OBS g
+		OBS g.v
+		n = c.next
+		OBS n
+		return g.v
+	}
+}
+class C {
+	v: int
+	next: Self?
+	constructor(self) {
+		self.v = 1
+		self.next = nil
+	}
+	fn maybe(self) -> Self? {
+		return self
+	}
+}
+holder = C()
+OBS (D()).peek()
+"""),
+    ("self-optional-return-of-a-class-declared-later-foreign-field", "reject", """
+holder: C? = nil
+class D {
+	w: str
+	constructor(self) {
+		self.w = "dee"
+	}
+	fn peek(self) -> str {
+		c = get holder
+		g = get c.maybe()
+		return g.w
+	}
+}
+class C {
+	v: int
+	constructor(self) {
+		self.v = 1
+	}
+	fn maybe(self) -> Self? {
+		return self
+	}
+}
+holder = C()
+OBS (D()).peek()
+"""),
+    # ---- equality: objects cannot be compared, also not inside an optional
+    ("optional-object-equality", "reject", """
+class C {
+	v: int
+	constructor(self, v: int) {
+		self.v = v
+	}
+}
+a: C? = C(1)
+b: C? = C(1)
+OBS a == b
+"""),
+    ("optional-object-inequality-in-condition", "reject", """
+class C {
+	v: int
+	constructor(self, v: int) {
+		self.v = v
+	}
+}
+a: C? = C(1)
+b: C? = a
+if a != b {
+	print "differ"
+}
+"""),
+    ("optional-object-compared-with-nil", "accept", """
+class C {
+	v: int
+	constructor(self, v: int) {
+		self.v = v
+	}
+}
+a: C? = C(1)
+n: C? = nil
+OBS a == nil
+OBS n == nil
+OBS nil != a
+"""),
+    # ---- a type alias names a type, not a variable
+    ("alias-of-class-used-as-a-value", "reject", """
+class Dog {
+	n: str
+	constructor(self, n: str) {
+		self.n = n
+	}
+}
+type Floof Dog
+x = Floof
+OBS x.n
+"""),
+    ("alias-of-class-leaves-a-variable-of-that-name-alone", "accept", """
+class Dog {
+	n: str
+	constructor(self, n: str) {
+		self.n = n
+	}
+}
+Floof = 5
+type Floof Dog
+OBS Floof
+d: Floof = Dog("rex")
+OBS d
+OBS d.n
+"""),
+    ("alias-of-class-leaves-a-variable-of-that-name-usable", "accept", """
+class Dog {
+	n: str
+	constructor(self, n: str) {
+		self.n = n
+	}
+}
+Floof = 5
+type Floof Dog
+OBS Floof + 1
+Floof = 7
+OBS Floof
+"""),
+    ("alias-of-class-retyped-variable-field", "reject", """
+class Dog {
+	n: str
+	constructor(self, n: str) {
+		self.n = n
+	}
+}
+Floof = 5
+type Floof Dog
+OBS Floof.n
+"""),
+    # ---- a method is reached through `self`; its bare name is not a variable of the class body
+    ("bare-method-name-inside-a-method", "reject", """
+class C {
+	x: int
+	constructor(self) {
+		self.x = 5
+	}
+	fn a(self, k: int) -> int {
+		return self.x + k
+	}
+	fn b(self) -> int {
+		return a(1)
+	}
+}
+c = C()
+OBS c.b()
+"""),
+    ("bare-method-name-is-the-outer-variable", "accept", """
+a = "hello"
+class C {
+	x: int
+	constructor(self) {
+		self.x = 5
+	}
+	fn a(self, k: int) -> int {
+		return self.x + k
+	}
+	fn b(self) -> int {
+		OBS a
+		return self.a(1)
+	}
+}
+c = C()
+OBS c.b()
+"""),
+    ("bare-method-name-is-the-outer-variable-in-an-expression", "accept", """
+a = "hello"
+class C {
+	x: int
+	constructor(self) {
+		self.x = 5
+	}
+	fn a(self, k: int) -> int {
+		return self.x + k
+	}
+	fn b(self) -> str {
+		return a + "!"
+	}
+}
+c = C()
+OBS c.b()
+"""),
+    ("bare-method-name-called-is-the-outer-variable", "reject", """
+a = "hello"
+class C {
+	x: int
+	constructor(self) {
+		self.x = 5
+	}
+	fn a(self, k: int) -> int {
+		return self.x + k
+	}
+	fn b(self) -> int {
+		return a(1)
+	}
+}
+c = C()
+OBS c.b()
+"""),
+    ("duplicate-method-names", "reject", """
+class C {
+	fn m(self) -> str {
+		return "first"
+	}
+	fn m(self) -> int {
+		return 2
+	}
+}
+c = C()
+OBS c.m()
+s: str = c.m()
+OBS s.len()
+"""),
+    ("field-and-method-of-one-name", "reject", """
+class C {
+	m: str
+	constructor(self) {
+		self.m = "field"
+	}
+	fn m(self) -> int {
+		return 2
+	}
+}
+c = C()
+OBS c.m
+"""),
+    # ---- the result of a call that returns nothing is not a value
+    ("void-call-as-list-element", "reject", """
+f = fn() {
+}
+const l = [f()]
+print l
+"""),
+    ("void-call-as-later-list-element", "reject", """
+f = fn() {
+}
+const l = [1, f()]
+print l
+"""),
+    ("void-method-call-as-list-element", "reject", """
+class K {
+	fn m(self) {
+	}
+}
+k = K()
+const l = [k.m()]
+print l
+"""),
+    ("void-call-compared-with-nil", "reject", """
+f = fn() {
+}
+OBS f() == nil
+"""),
+    ("nil-compared-with-void-call", "reject", """
+f = fn() {
+}
+if nil != f() {
+	print "x"
+}
+"""),
+    ("void-call-unwrapped", "reject", """
+f = fn() {
+}
+print get f()
+"""),
+    ("void-calls-identity", "reject", """
+f = fn() {
+}
+OBS f() is f()
+"""),
+    ("void-call-to-str", "reject", """
+f = fn() {
+}
+OBS (f()).to_str()
+"""),
+    ("void-call-as-statement-and-printed", "accept", """
+f = fn() {
+}
+f()
+print f()
+g = fn() {
+	return f()
+}
+g()
+OBS 1
+"""),
     # ---- the language's own dynamic failures stay allowed
     ("allowed-get-nil", "accept", """
 e: int? = nil
